@@ -20,8 +20,9 @@ from . import tlc
 from .registry import CHECKS, PROFILES
 
 VERIF = os.path.dirname(os.path.dirname(os.path.abspath(__file__)))
-EVID = os.path.join(VERIF, "evidence")
-REPLAYS = os.path.join(VERIF, "replays")
+OUT = os.environ.get("VERIF_OUT", VERIF)      # mutant runs redirect evidence / replay files
+EVID = os.path.join(OUT, "evidence")
+REPLAYS = os.path.join(OUT, "replays")
 
 FLUSH_AT = 48000
 
